@@ -424,17 +424,48 @@ func (e *Env) entryClosedPacked(name string, et types.Type) {
 
 func (e *Env) mapNames(mt *types.Map) (dom, size string, keySort string) {
 	kl := e.leavesOf(mt.Key())
-	if len(kl) != 1 {
-		unsupp("map with composite key %v", mt.Key())
-	}
 	k := "M!" + typeKey(mt) + "!"
+	if len(kl) != 1 {
+		// a struct of fixed-width integers is packed injectively into one Int
+		for _, l := range kl {
+			if b := basicOf(l.Typ); b == nil || b.Info()&types.IsInteger == 0 || l.Sort != sInt {
+				unsupp("map with composite key %v", mt.Key())
+			}
+		}
+		return k + "dom", k + "size", sInt
+	}
 	return k + "dom", k + "size", kl[0].Sort
+}
+
+// mapKeyTerm is the index term of a key: its single leaf, or for a struct of fixed-width
+// integers the injective packing  (...(l0 * 2^w1 + u(l1)) * 2^w2 + u(l2) ...), u = offset to
+// non-negative.
+func (e *Env) mapKeyTerm(mt *types.Map, key Value) string {
+	fl := e.flatten(key)
+	kl := e.leavesOf(mt.Key())
+	if len(kl) == 1 {
+		return fl[0]
+	}
+	acc := ""
+	for i, l := range kl {
+		w := bitWidth(l.Typ)
+		t := fl[i]
+		if basicOf(l.Typ).Info()&types.IsUnsigned == 0 {
+			t = sx("+", t, pow2str(w-1))
+		}
+		if i == 0 {
+			acc = t
+		} else {
+			acc = sx("+", sx("*", acc, pow2str(w)), t)
+		}
+	}
+	return acc
 }
 
 func (e *Env) mapLookup(st *State, m *MapV, key Value) (val Value, ok string) {
 	mt := m.Typ.Underlying().(*types.Map)
 	dn, _, ks := e.mapNames(mt)
-	k := e.flatten(key)[0]
+	k := e.mapKeyTerm(mt, key)
 	dom := e.heapGet(st, dn, heapSort("M", sBool, ks))
 	in := mkAnd(mkNot(mkEq(m.Ref, "0")), mkSelect(mkSelect(dom, m.Ref), k))
 	in = e.maybeName(in, sBool)
@@ -475,7 +506,7 @@ func (e *Env) mapLen(st *State, m *MapV) string {
 func (e *Env) mapUpdate(st *State, m *MapV, key, val Value) {
 	mt := m.Typ.Underlying().(*types.Map)
 	dn, sn, ks := e.mapNames(mt)
-	k := e.flatten(key)[0]
+	k := e.mapKeyTerm(mt, key)
 	ds := heapSort("M", sBool, ks)
 	dom := e.heapGet(st, dn, ds)
 	was := e.maybeName(mkSelect(mkSelect(dom, m.Ref), k), sBool)
@@ -500,7 +531,7 @@ func (e *Env) mapUpdate(st *State, m *MapV, key, val Value) {
 func (e *Env) mapDelete(st *State, m *MapV, key Value) {
 	mt := m.Typ.Underlying().(*types.Map)
 	dn, sn, ks := e.mapNames(mt)
-	k := e.flatten(key)[0]
+	k := e.mapKeyTerm(mt, key)
 	ds := heapSort("M", sBool, ks)
 	dom := e.heapGet(st, dn, ds)
 	was := e.maybeName(mkAnd(mkNot(mkEq(m.Ref, "0")), mkSelect(mkSelect(dom, m.Ref), k)), sBool)
@@ -602,7 +633,17 @@ func (e *Env) traceLenTerm(st *State, ch string) string {
 		e.declared["tlen0:"+ch] = true
 		e.sess.Cmd("(assert (<= 0 (select " + q("T!"+ch+"!len@0") + " 0)))")
 	}
-	return mkSelect(arr, "0")
+	t := mkSelect(arr, "0")
+	// a run emits fewer than 2^62 records: positions fit the Go int range spec quantifiers use
+	if e.asserted == nil {
+		e.asserted = map[string]bool{}
+	}
+	if !strings.Contains(t, "$") && !e.asserted["tlenbound:"+t] {
+		e.asserted["tlenbound:"+t] = true
+		e.sess.Cmd("(assert (and (<= 0 " + t + ") (< " + t + " 4611686018427387904)))")
+		e.trust("ghost traces hold fewer than 2^62 records")
+	}
+	return t
 }
 
 func (e *Env) traceAt(st *State, ch string, k int, pos string) string {
